@@ -21,6 +21,8 @@ def cfg(**kw):
 def mk_page(rng, boxes, slant=0.0, with_lines=True):
     from pero_ocr.core.layout import PageLayout, RegionLayout, TextLine
     pl = PageLayout(id='p', page_size=(3000, 3000))
+    # line geometry as the callers hold it: float64 (PAGE XML import), integer pixels (detectors) or float32
+    base_dtype = rng.choice([np.float64, np.float64, np.int64, np.float32])
     # line ids: unique on the page, numbered per region (the same ids in every region), or absent (TextLine's default)
     id_scheme = rng.choice(['unique', 'unique', 'per-region', 'none'])
     for i, (x0, y0, x1, y1) in enumerate(boxes):
@@ -43,7 +45,7 @@ def mk_page(rng, boxes, slant=0.0, with_lines=True):
                 y = y0 + 5 + 10 * k
                 dy = slant * (x1 - x0)
                 lid = 'r%d-l%d' % (i, k) if id_scheme == 'unique' else ('l%d' % k if id_scheme == 'per-region' else None)
-                reg.lines.append(TextLine(id=lid, baseline=np.array([[x0, y], [x1, y + dy]], dtype=float),
+                reg.lines.append(TextLine(id=lid, baseline=np.array([[x0, y], [x1, y + dy]], dtype=float).astype(base_dtype),
                                           polygon=np.array([[x0, y - 4], [x1, y - 4 + dy], [x1, y + 2 + dy], [x0, y + 2]], dtype=float),
                                           heights=[4, 2], transcription='t%d.%d' % (i, k)))
         pl.regions.append(reg)
